@@ -193,6 +193,8 @@ impl RollingFileAppender {
         } = builder;
         let directory = directory.as_ref().to_path_buf();
         let now = OffsetDateTime::now_utc();
+        #[cfg(feature = "verif-hooks")]
+        let now = verif_now().unwrap_or(now);
         let (state, writer) = Inner::new(
             now,
             rotation.clone(),
@@ -211,6 +213,10 @@ impl RollingFileAppender {
 
     #[inline]
     fn now(&self) -> OffsetDateTime {
+        #[cfg(feature = "verif-hooks")]
+        if let Some(now) = verif_now() {
+            return now;
+        }
         #[cfg(test)]
         return (self.now)();
 
@@ -246,9 +252,17 @@ impl<'a> tracing_subscriber::fmt::writer::MakeWriter<'a> for RollingFileAppender
             // Did we get the right to lock the file? If not, another thread
             // did it and we can just make a writer.
             if self.state.advance_date(now, current_time) {
+                #[cfg(feature = "verif-hooks")]
+                tracing_subscriber::__verif::wait_until("rolling.writer.write", &|| {
+                    self.writer.try_write().is_some()
+                });
                 self.state.refresh_writer(now, &mut self.writer.write());
             }
         }
+        #[cfg(feature = "verif-hooks")]
+        tracing_subscriber::__verif::wait_until("rolling.writer.read", &|| {
+            self.writer.try_read().is_some()
+        });
         RollingWriter(self.writer.read())
     }
 }
@@ -661,6 +675,8 @@ impl Inner {
     /// If this method returns `Some`, we should roll to a new log file.
     /// Otherwise, if this returns we should not rotate the log file.
     fn should_rollover(&self, date: OffsetDateTime) -> Option<usize> {
+        #[cfg(feature = "verif-hooks")]
+        tracing_subscriber::__verif::point("rolling.next_date.load");
         let next_date = self.next_date.load(Ordering::Acquire);
         // if the next date is 0, this appender *never* rotates log files.
         if next_date == 0 {
@@ -680,10 +696,20 @@ impl Inner {
             .next_date(&now)
             .map(|date| date.unix_timestamp() as usize)
             .unwrap_or(0);
+        #[cfg(feature = "verif-hooks")]
+        tracing_subscriber::__verif::point("rolling.next_date.cas");
         self.next_date
             .compare_exchange(current, next_date, Ordering::AcqRel, Ordering::Acquire)
             .is_ok()
     }
+}
+
+/// Verification hook (clock seam): the instant supplied by the harness, if any.
+#[cfg(feature = "verif-hooks")]
+fn verif_now() -> Option<OffsetDateTime> {
+    tracing_subscriber::__verif::now().and_then(|(secs, nanos)| {
+        OffsetDateTime::from_unix_timestamp_nanos(secs as i128 * 1_000_000_000 + nanos as i128).ok()
+    })
 }
 
 fn create_writer(directory: &Path, filename: &str) -> Result<File, InitError> {
